@@ -261,6 +261,35 @@ EXTRA = {
     "C20": "Also (R6-R8): memoised functions return immutable values or their results never escape (returned further, stored, written in place, or called through a stored bound method); "
            "augmented assignment on non-scalar receiver attributes counts as an in-place write; compaction state and copy() clauses shared with C04/C07.",
 }
+# third round
+EXTRA3 = {
+    "C01": "(R9/R10) gather indices of padded text columns are clamped to the last byte of the chunk; chunks joined with np.concatenate are shifted by cumulative sizes (shared C04-R2).",
+    "C02": "(R9-R12) number parsing clauses of C18-R2; selection/concatenation tables (C04-R2); late-bound format constants; delta-array idiom; the key match mask is padded behind the matches.",
+    "C03": "(R7-R10) selection tables, lazy concatenation (C05-R1), shared tables never written in place, late-bound constants; optional-int formatter writes the missing marker for NaN only; "
+           "append mode is recognised for every opener of _get_buffered_file (a gzip file object reports an integer mode).",
+    "C04": "(R11-R13) lazy concatenation slots, shared tables never written in place, late-bound constants.",
+    "C05": "(R7/R8) format constants are read through cls / self; no mutable default argument is stored or written.",
+    "C06": "(R8) text is converted to bytes strictly; alphabet accessors return new lists; dict caches of the module are keyed completely.",
+    "C07": "(R7-R9) re-target guard and shape plumbing of C06; join / list formatting of C18-R4; ragged_slice delegates to the npstructures slicer on the flattened text (row counts never bound "
+           "flat positions); delta-array idiom.",
+    "C08": "(R7) every contig gets a buffer in the synchronised streams (C12-R2); the generic sort path is also read in its column-wise (zip) form.",
+    "C09": "(R5/R6) genome size / bins of C10-R8; sorting chromosome names keeps names paired with their sizes; the dense array of a run-length array is new memory.",
+    "C10": "(R9) every chromosome is visited by the streamed walk (C12-R1/R2).",
+    "C11": "(R7 d-f, R8) streamed and in-memory extraction use the same strand selector; evaluating a buffer writes no node state; every group is labelled with the caller's key; "
+           "block-wise counting visits every block (C13-R5).",
+    "C12": "(R6+, R2+) ragged keys: length change OR character change; every group is pulled after the ignored-name filter was installed; skipped contigs are filled in a loop.",
+    "C13": "(R2+, R8) hash weights are 64-bit for every k; delta-array idiom (row ids by mark-and-cumsum need non-empty rows).",
+    "C14": "(R3+, R4+, R5, R6) the reverse-complemented side of a strand selector derives from the same value as the forward side; the in-memory sequence table is looked up by name; indexed "
+           "FASTA byte arithmetic (C17-R2); delta-array idiom.",
+    "C15": "(R3+, R7) the row formula is selected by the shape of the parsed text; the lazy table's line offset is captured before its chunk is read; validators report without decoding file bytes.",
+    "C16": "(R10/R11) chunk carry-over of C01-R2; an all-records-alike shortcut must test the array whose first element it then uses for every record.",
+    "C17": "(R1/R2/R3+) read_index and create_index are also read in loop form (the running offset must accumulate); the generic interval path walks the intervals in the order given.",
+    "C18": "(R2+, R7) the mask of parsed rows is `length > 0` only; delta-array idiom.",
+    "C19": "(R8/R9) lazy tables: concatenation and __replace__ clauses of C05-R1 / C04-R6; no mutable default argument is stored or written.",
+    "C20": "(R9) no mutable default argument is stored, returned or written; dataclasses.replace() is a shallow copy (its columns are still the argument's arrays).",
+}
+for _k, _v in EXTRA3.items():
+    EXTRA[_k] = EXTRA[_k] + " Third round: " + _v
 for _k, _v in EXTRA.items():
     CLAIMS[_k]["text"] += " " + _v + (" (T1) In the functions of the property's anchor files no quantified test flipped between `all` and `any` on the same argument and no "
                                        "parameter that was read is now ignored, relative to the instances confirmed on the reference tree.")
